@@ -38,7 +38,10 @@ RULE_ADDED = (
               'ibrary. '
               ' '
               'Round 14: NaN as an element name (every reference the same object), self-certify'
-              'ing or not. ')
+              'ing or not. '
+              ' '
+              "Round 15: signer references that spell the root's name in another case / padded "
+              '/ doubled. ')
 RULE = RULE + " " + RULE_ADDED.strip()
 ASSUMPTIONS = [
     "any exception out of from_jsonfile counts as 'reports an error' (the admin tools turn "
